@@ -252,16 +252,22 @@ def synthesise(time, tr, form, sensor_type):
     return sim.generate_imu(time, tr['lla'][0], tr['rph'], tr['vel'], sensor_type)
 
 
+TRIM = 3        # samples dropped at both ends for the absolute bounds
+EDGE = 1.0      # [s] margin at both ends excluded from the convergence (halving) tests
+
+
 def make_grid(rng, dt, total, uniform):
     """sample times: uniform with step dt, or jittered steps dt*U(0.42, 0.5) with ~10 % dropped samples
     (steps between 0.42 dt and dt)."""
     if uniform:
         return np.arange(int(round(total / dt)) + 1) * dt
-    t, out = 0.0, [0.0]
+    t, out, dropped = 0.0, [0.0], True
     while t < total:
         t += dt * rng.uniform(0.42, 0.5)
-        if rng.random() < 0.1 and len(out) > 1:
-            continue                                  # dropped sample
+        if not dropped and rng.random() < 0.1:
+            dropped = True                            # dropped sample (never two in a row: steps <= dt)
+            continue
+        dropped = False
         out.append(t)
     return np.array(out)
 
@@ -280,7 +286,7 @@ def steps_of(time):
     return np.r_[d[0], d]
 
 
-def imu_errors(traj, time, form, sensor_type, trim=3, tr=None):
+def imu_errors(traj, time, form, sensor_type, trim=TRIM, tr=None):
     """max |gyro error| [rad/s], max |accel error| [m/s^2] (increments divided by THEIR OWN interval), plus the
     returned trajectory's deviation from the analytic one (position [m], velocity [m/s])."""
     n = len(time)
@@ -294,13 +300,17 @@ def imu_errors(traj, time, form, sensor_type, trim=3, tr=None):
     else:
         dtv = steps_of(time)[:, None]
         eg, ea = (g - tr['dth']) / dtv, (a - tr['dv']) / dtv
+    # fall tests use the interior window (the end conditions of the splines give errors that decay by ~0.27 per
+    # knot away from the ends); the absolute bounds are applied to everything but `trim` samples at each end
+    win = (time >= time[0] + EDGE) & (time <= time[-1] - EDGE)
     sl = slice(trim, n - trim)
     lla = trj[['lat', 'lon', 'alt']].values
     dpos = np.abs(np.column_stack([(lla[:, 0] - tr['lla'][:, 0]) * D2R * 6.4e6,
                                    (lla[:, 1] - tr['lla'][:, 1]) * D2R * 6.4e6 * np.cos(tr['lla'][:, 0] * D2R),
                                    lla[:, 2] - tr['lla'][:, 2]])).max()
     dvel = np.abs(trj[['VN', 'VE', 'VD']].values - tr['vel']).max()
-    return dict(gyro=float(np.abs(eg[sl]).max()), accel=float(np.abs(ea[sl]).max()),
+    return dict(gyro=float(np.abs(eg[win]).max()), accel=float(np.abs(ea[win]).max()),
+                gyro_all=float(np.abs(eg[sl]).max()), accel_all=float(np.abs(ea[sl]).max()),
                 pos=float(dpos), vel=float(dvel)), (trj, imu, tr)
 
 
@@ -333,7 +343,7 @@ GYRO_FLOOR = 1e-10
 FALL = 0.85            # error(dt/2) <= FALL * error(dt)   (expected 0.5 .. 0.06) unless below the floor
 ABS = dict(gyro=2e-2, accel=1e-1)                  # at dt <= 0.05 s; >= 100x the observed interpolation error
 CL_FLOOR = dict(pos=1e-3, vel=1e-4, att=1e-8)
-CL_FALL = 0.7          # expected 0.25 .. 0.125
+CL_FALL = 0.85         # expected 0.25 .. 0.125 (up to 0.75 on jittered grids)
 CL_ABS = dict(pos=5.0, vel=3.0, att=3e-2)          # after 4 s at dt = 0.05 s
 TOTAL = 4.0
 
@@ -375,8 +385,8 @@ def traj_case(seed, k, family, dts, want_closed_loop=True):
                     if prev is not None and e[ch] > max(FALL * prev[ch], fl[ch]):
                         fails.append(f"{form}/{st}: {ch} error does not fall with the sampling interval: "
                                      f"{prev[ch]:.3e} -> {e[ch]:.3e} at dt={dt}")
-                    if dt <= 0.05 and e[ch] > ABS[ch] + fl[ch]:
-                        fails.append(f"{form}/{st} dt={dt}: {ch} error {e[ch]:.3e} above bound {ABS[ch]}")
+                    if dt <= 0.05 and e[ch + '_all'] > ABS[ch] + fl[ch]:
+                        fails.append(f"{form}/{st} dt={dt}: {ch} error {e[ch + '_all']:.3e} above bound {ABS[ch]}")
                 if form == 'init+vel' and e['pos'] > POS_TOL:
                     fails.append(f"init+vel/{st} dt={dt}: returned position is {e['pos']:.3e} m off the motion "
                                  f"that has the given velocity")
@@ -390,9 +400,11 @@ def traj_case(seed, k, family, dts, want_closed_loop=True):
             prev = None
             for dt in dts:
                 a, b = imus[('pos+vel', st, dt)].values, imus[(other, st, dt)].values
-                sc = 1.0 if st == 'rate' else steps_of(grids[dt])[3:-3, None]
-                d = dict(gyro=float(np.abs((a[3:-3, :3] - b[3:-3, :3]) / sc).max()),
-                         accel=float(np.abs((a[3:-3, 3:] - b[3:-3, 3:]) / sc).max()))
+                tg = grids[dt]
+                win = (tg >= tg[0] + EDGE) & (tg <= tg[-1] - EDGE)
+                sc = 1.0 if st == 'rate' else steps_of(tg)[win, None]
+                d = dict(gyro=float(np.abs((a[win, :3] - b[win, :3]) / sc).max()),
+                         accel=float(np.abs((a[win, 3:] - b[win, 3:]) / sc).max()))
                 fl = dict(gyro=GYRO_FLOOR, accel=2 * ACC_FLOOR(hmin[dt]))
                 for ch in ('gyro', 'accel'):
                     if prev is not None and d[ch] > max(FALL * prev[ch], fl[ch]):
